@@ -254,6 +254,8 @@ static void janet_env_detach(JanetFuncEnv *env) {
     /* Check for closure environment */
     if (env) {
         janet_env_valid(env);
+        /* Untrusted environments may turn out to be invalid or already off the stack */
+        if (env->offset <= 0) return;
         int32_t len = env->length;
         size_t s = sizeof(Janet) * (size_t) len;
         Janet *vmem = janet_malloc(s);
